@@ -47,6 +47,9 @@ Next ==
   /\ LET ev == Trace[l] IN
      IF ev.op = "Init" THEN e' = ELInit /\ bad' = bad
      ELSE IF ev.op = "Panic" THEN e' = e /\ bad' = bad \cup {<<ev.t, ev.i0, "Panic", {ev.msg}>>}
+     \* the driver derives its operations from the answers of the real log: after a wrong answer the rest of
+     \* the trace is not a sequence of operations the specification defines; the trace has its finding
+     ELSE IF \E x \in bad : x[1] = ev.t THEN e' = e /\ bad' = bad
      ELSE LET s == Apply(ev, e) IN
           /\ e' = s
           /\ bad' = IF PanelOK(ev, s) /\ SavedIsPersisted(s) /\ ApplyAfterSaveAndCommit(s) /\ WellFormed(s)
